@@ -27,7 +27,7 @@ programs and all schedules in coq/props/C20.v.  This module ties the model to th
       structure is unusable D falls back to "every file whole (some undisturbed state) + aborting exit";
  (V)  vm_compute cross-check of the extracted binary.
 """
-import os, sys, json, signal, select, shutil, time, hashlib, builtins, contextlib, io, importlib, itertools, re, traceback
+import os, sys, json, errno, signal, select, shutil, time, hashlib, builtins, contextlib, io, importlib, itertools, re, traceback
 import common
 from common import vm_shard
 
@@ -390,6 +390,63 @@ def prepare(case, wd):
         shutil.copyfile(os.path.join(data_dir(), sample), os.path.join(wd, name))
 
 
+# process environments a tool may find itself in when the signal arrives (besides "plain": healthy captured
+# stdout/stderr).  For each name the variants are tried in order; the first in which the UNDISTURBED run behaves like
+# the plain one is used (a tool that prints to stdout in normal operation cannot run at all with a raising stdout)
+ENVS = ["closed-pipes", "eio", "no-stdin"]
+ENV_VARIANTS = {"closed-pipes": ["closed-pipes", "closed-pipe-stderr"], "eio": ["eio", "eio-stderr"], "no-stdin": ["no-stdin"]}
+ENV_TEXT = {"plain": "stdout/stderr healthy",
+            "closed-pipes": "stdout and stderr are pipes whose read end is closed (EPIPE)",
+            "closed-pipe-stderr": "stderr is a pipe whose read end is closed (EPIPE)",
+            "eio": "writing to stdout or stderr raises OSError(EIO) (terminal gone)",
+            "eio-stderr": "writing to stderr raises OSError(EIO) (terminal gone)",
+            "no-stdin": "stdin (fd 0) closed"}
+UNWRITABLE = ("closed-pipes", "closed-pipe-stderr", "eio", "eio-stderr")   # the abort report itself may be unwritable
+
+
+class EIOStream:
+    """a text stream on a vanished terminal: every write fails with EIO"""
+    encoding, errors, name = "utf-8", "strict", "<gone>"
+
+    def write(self, s):
+        raise OSError(errno.EIO, os.strerror(errno.EIO))
+
+    def flush(self):
+        return None                      # nothing is ever buffered
+
+    def isatty(self):
+        return False
+
+    def writable(self):
+        return True
+
+
+_keep = []                               # replaced stream objects are kept alive (no finalizer noise)
+
+
+def setup_env(env):
+    sys.stdout, sys.stderr = io.StringIO(), io.StringIO()
+    if env in ("closed-pipes", "closed-pipe-stderr"):
+        signal.signal(signal.SIGPIPE, signal.SIG_IGN)          # as CPython does at start-up: EPIPE, not death
+        r, w = os.pipe()
+        os.close(r)
+        fds = (1, 2) if env == "closed-pipes" else (2,)
+        for fd in fds:
+            os.dup2(w, fd)
+        os.close(w)
+        if 1 in fds:
+            sys.stdout = REAL_OPEN(1, "w", encoding="utf-8", closefd=False)                 # a pipe: block buffered
+        sys.stderr = REAL_OPEN(2, "w", buffering=1, encoding="utf-8", errors="backslashreplace", closefd=False)   # line buffered
+        _keep.extend([sys.stdout, sys.stderr])
+    elif env in ("eio", "eio-stderr"):
+        sys.stderr = EIOStream()
+        if env == "eio":
+            sys.stdout = EIOStream()
+    elif env == "no-stdin":
+        os.close(0)                      # the tool's first open() gets descriptor 0, as in a process started with <&-
+        sys.stdin = None
+
+
 def child_body(job):
     case, wd = job["case"], job["wd"]
     fresh_dispositions()
@@ -413,6 +470,7 @@ def child_body(job):
     T = Tracer(wd, case, job["at"], getattr(signal, job["sig"]), job["linemode"])
     undo = install(T, mod)
     sys.argv = case.argv()
+    setup_env(job.get("env", "plain"))
     outcome, code = None, None
     try:
         T.active = True
